@@ -13,6 +13,11 @@
  * the thread verifies its locals and the new hint contents.  The layout (stack top from the "alloc.stack"
  * event, hint region, initial rsp read from the context at the "create.start" event) is printed as a
  * `hint ...` line per thread; an overlap of hint region and initial frames is reported with the byte range.
+ * Yield storm (c03_probe <nthreads> <iters> <seed> yield <rounds>): per round a batch of nthreads threads, each calls myth_yield_ex with EVERY option
+ * (half_half, local_only, local_first, steal_only, steal_first) in a tight loop through the register trampoline,
+ * verifies registers and a stack array after every return, and keeps a per-thread owner word (cleared before the
+ * yield, test-and-set after it): finding it already set means the thread runs on two workers at once.  A crash
+ * (SIGSEGV/SIGBUS/SIGABRT) prints a `CRASH` line from an alternate signal stack and exits with status 3.
  * Last line of output:
  *   ok|FAIL threads=.. ops=.. switches_cb=.. migrations=.. reg_bad=.. stack_bad=.. cb_misaligned=.. entry_misaligned=.. first=<description>
  */
@@ -20,6 +25,8 @@
 #include <stdlib.h>
 #include <stdint.h>
 #include <string.h>
+#include <signal.h>
+#include <unistd.h>
 #include <myth/myth.h>
 #include "myth_config.h"
 #include "myth_verif.h"
@@ -268,6 +275,73 @@ static void *probe(void *a) {
   return 0;
 }
 
+
+/* ---------------- yield storm ---------------- */
+#define YWORDS 24
+static long g_twice, g_yields;
+static volatile long g_round;
+static int g_force_opt = -1;
+static const char *g_mode = "main";
+typedef struct { volatile int owner; int tid; long resumed_elsewhere; } ythr_t;
+static ythr_t *g_y;
+
+static void do_yield(void *a) {
+  call_t *c = (call_t *)a;
+  ythr_t *y = &g_y[c->tid];
+  y->owner = 0;                                   /* about to be suspended */
+  __sync_synchronize();
+  myth_yield_ex(c->op);
+  if (__sync_lock_test_and_set(&y->owner, 1) != 0) {   /* somebody is already running this thread */
+    __sync_fetch_and_add(&g_twice, 1);
+    note_first("thread resumed while it is already running on another worker (yield option = op)", c->tid, c->op, 0, 0, 1);
+  }
+}
+
+static void *ystorm(void *a) {
+  int tid = (int)(intptr_t)a;
+  volatile uint64_t arr[YWORDS];
+  uint64_t out[6];
+  uint64_t st = mix(g_seed * 7919ull + tid);
+  long i, k;
+  g_y[tid].owner = 1;
+  for (k = 0; k < YWORDS; k++) arr[k] = mix(((uint64_t)(tid + 77) << 32) + k);
+  for (i = 0; i < g_iters; i++) {
+    call_t c;
+    uint64_t pat;
+    st = mix(st);
+    c.tid = tid; c.rnd = st >> 8;
+    /* rounds 0..4 (mod 6): every yield of the batch uses that one option; round 5: all options interleaved */
+    c.op = g_force_opt >= 0 ? g_force_opt : (g_round % 6 < 5) ? (int)(g_round % 6) : (int)((i + tid) % 5);
+    pat = (st & ~0xFFull) | ((uint64_t)(tid & 0xF) << 4);
+    c03_regprobe(do_yield, &c, pat, out);
+    for (k = 0; k < 6; k++)
+      if (out[k] != pat + k + 1) { __sync_fetch_and_add(&g_reg_bad, 1); note_first("callee-saved register changed across myth_yield_ex (0=rbx 1=rbp 2..5=r12..r15; op = option)", tid, c.op, k, pat + k + 1, out[k]); }
+    for (k = 0; k < YWORDS; k++)
+      if (arr[k] != mix(((uint64_t)(tid + 77) << 32) + k)) { __sync_fetch_and_add(&g_stack_bad, 1); note_first("stack word changed across myth_yield_ex (op = option)", tid, c.op, k, mix(((uint64_t)(tid + 77) << 32) + k), arr[k]); break; }
+    if (g_reg_bad || g_stack_bad || g_twice) break;
+  }
+  __sync_fetch_and_add(&g_yields, i);
+  g_y[tid].owner = 0;
+  return 0;
+}
+
+static char g_altstack[65536];
+static void on_crash(int sig) {
+  char buf[200];
+  int n = snprintf(buf, sizeof buf, "CRASH signal=%d mode=%s threads=%d iters=%d seed=%llu yields_so_far=%ld\n",
+                   sig, g_mode, g_n, g_iters, (unsigned long long)g_seed, g_yields);
+  if (n > 0) { ssize_t r = write(1, buf, (size_t)n); (void)r; }
+  _exit(3);
+}
+static void install_crash_handler(void) {
+  stack_t ss; struct sigaction sa;
+  ss.ss_sp = g_altstack; ss.ss_size = sizeof g_altstack; ss.ss_flags = 0;
+  sigaltstack(&ss, 0);
+  memset(&sa, 0, sizeof sa);
+  sa.sa_handler = on_crash; sa.sa_flags = SA_ONSTACK | SA_RESETHAND;
+  sigaction(SIGSEGV, &sa, 0); sigaction(SIGBUS, &sa, 0); sigaction(SIGABRT, &sa, 0); sigaction(SIGILL, &sa, 0);
+}
+
 int main(int argc, char **argv) {
   int i;
   myth_thread_t *th;
@@ -275,8 +349,35 @@ int main(int argc, char **argv) {
   g_iters = argc > 2 ? atoi(argv[2]) : 50;
   g_seed = argc > 3 ? strtoull(argv[3], 0, 10) : 1;
   if (g_n < 1) g_n = 1;
+  if (argc > 4) g_mode = argv[4];
+  install_crash_handler();
   g_myth_verif_cb = hook;
   myth_init();
+  if (!strcmp(g_mode, "yield")) {
+    g_myth_verif_cb = 0;      /* no hook here: the storm must run at full speed (alignment is sampled in the main mode) */
+    /* batches: one worker creates nthreads short threads that rotate through ITS run queue with yields of every
+       option; the other workers are idle thieves that take whatever appears at the steal end of that queue */
+    long rounds = argc > 5 ? atol(argv[5]) : 200, r;
+    if (argc > 6) g_force_opt = atoi(argv[6]);
+    g_y = calloc(g_n, sizeof *g_y);
+    th = calloc(g_n, sizeof *th);
+    for (r = 0; r < rounds && !(g_reg_bad || g_stack_bad || g_twice); r++) {
+      g_seed += 0x9E3779B9ull; g_round = r + (long)(g_seed % 6);
+      for (i = 0; i < g_n; i++) th[i] = myth_create(ystorm, (void *)(intptr_t)i);
+      for (i = 0; i < g_n; i++) myth_join(th[i], 0);
+    }
+    g_myth_verif_cb = 0;
+    {
+      int bad = g_reg_bad || g_stack_bad || g_twice || g_cb_misaligned;
+      printf("%s mode=yield threads=%d yields=%ld switches_cb=%ld two_workers=%ld reg_bad=%ld stack_bad=%ld cb_misaligned=%ld first=%s\n",
+             bad ? "FAIL" : "ok", g_n, g_yields, g_cb_enter, g_twice, g_reg_bad, g_stack_bad, g_cb_misaligned,
+             g_first_set ? g_first : "-");
+      fflush(stdout);
+      if (bad) _exit(1);          /* do not run finalisation on a corrupted scheduler state */
+      myth_fini();
+      return 0;
+    }
+  }
   hint_phase();
   myth_mutex_init(&g_mtx, 0);
   myth_barrier_init(&g_bar, 0, g_n);
